@@ -764,7 +764,7 @@ func init() {
 	extend("C05", "Also (P05-fresh-read, P08-io-verbatim): each reconciliation re-reads the target from disk (no remembered contents), so the validated text is the text that gets replaced.", ruleP05FreshRead, ruleP08IoVerbatim)
 	extend("C08", "(P07-head, P07-chunks) the parallel engine cuts the unaltered input into contiguous chunks and carries each batch's first block to the merge step.", ruleP07Head, ruleP07Chunks)
 	extend("C08", "(P08-blank) a line is blank iff it consists of spaces and tabs only.", ruleP08Blank)
-	extend("C01", "(P08-blank) as under C08; (P16-date-strict, P16-duration-parts) as under C16.", ruleP08Blank, ruleP16DateStrict, ruleP16DurationParts)
+	extend("C01", "(P08-blank) as under C08; (P16-date-strict, P16-duration-parts, P16-date-separators) as under C16.", ruleP08Blank, ruleP16DateStrict, ruleP16DurationParts, ruleP16DateSeparators)
 	extend("C18", "(P09-first-summary-line) the layout decision about the first summary line is taken on the raw text, never on its styled rendering.", ruleP09FirstSummaryLine)
 	extend("C09", "(P09-first-summary-line) the first entry-summary line is left out only when the raw line is empty. Also (P18-nostyle-applied): print applies --no-style before it obtains the serialiser, so the unstyled output carries no escape sequences.", ruleP18NoStyleApplied, ruleP09FirstSummaryLine)
 	extend("C10", "(P10-char-units) no byte length of a string is used as error position or length; (P10-format) no format string of a printf-style call contains data (source line, file name, message). Also (P07-errmerge, P07-merge-order): every error list produced by a worker or by re-parsing carried text reaches the merged list, carried text first.", ruleP07ErrMerge, ruleP07MergeOrderAll, ruleP10Format, ruleP10CharUnits)
